@@ -217,10 +217,9 @@ func (c *converter) Panic(value string) error {
 }
 
 func (c *converter) WriteFile(path string, content string, append string) error {
-	helper := c.nextHelperVar()
-
-	c.VarAssignment(helper, fmt.Sprintf(`$(if [ "%s" -eq "%s" ]; then echo ">>"; else echo ">"; fi)`, append, transpiler.BoolToString(true)), false)
-	c.addLine(fmt.Sprintf(`eval "echo \"%s\" %s %s"`, content, c.varEvaluationString(helper, false), path))
+	// Don't build the redirection with eval since it would split, expand and execute parts of path and content
+	// and use printf instead of echo to make sure contents like "-n" are not interpreted as options.
+	c.addLine(fmt.Sprintf(`if [ "%s" -eq "%s" ]; then printf '%%s\n' "%s" >> "%s"; else printf '%%s\n' "%s" > "%s"; fi`, append, transpiler.BoolToString(true), content, path, content, path))
 	return nil
 }
 
